@@ -859,7 +859,7 @@ Section invariant.
     - (* MMaterial *) apply (Inv_push_cmd _ _ _ Hk); [exact HI|]. intros Hx. exfalso. apply Hx. reflexivity.
     - (* MAsset *) apply Inv_request_asset; exact HI.
     - apply (Inv_push_cmd _ _ _ Hk); [exact HI|exact I].
-    - (* MNewHost *) peel_irr. apply (Inv_push_cmd _ _ _ Hk); [|exact I]. apply (Inv_push_cmd _ _ _ Hk); [|exact I]. irr.
+    - (* MNewHost *) apply (Inv_push_cmd _ _ _ Hk); [|exact I]. apply (Inv_push_cmd _ _ _ Hk); [|exact I]. irr.
     - exact HI.
     - irr.
   Qed.
